@@ -139,6 +139,33 @@ def _decode(b: SSeq, encoding="utf-8", errors="strict") -> SSeq:
             else:
                 raise Unsupported(f"decode errors={errors}")
         return SSeq("str", out, len(out))
+    if enc == "idna":
+        # ASCII input only.  A label without the ACE prefix decodes to itself; for an
+        # 'xn--' label the punycode decoder (C/stdlib) is modelled by its contract: it raises
+        # UnicodeError or returns some text (fresh symbolic characters).
+        if not c.decide(z3.And(*[z3.ULT(e, 0x80) for e in es]) if es else z3.BoolVal(True)):
+            raise Unsupported("idna decoding of non-ASCII bytes")
+        labels = b.split(b".")
+        outl = []
+        for li, lab in enumerate(labels):
+            le = lab.celems()
+            ace = False
+            if len(le) >= 4:
+                ace = c.decide(z3.And(z3.Or(le[0] == 120, le[0] == 88), z3.Or(le[1] == 110, le[1] == 78), le[2] == 45, le[3] == 45))
+            if ace:
+                k = next(c.fresh)
+                if c.decide(z3.Bool(f"punycode_invalid_{k}")):
+                    raise UnicodeError("Invalid punycode label (modelled)")
+                c.note("punycode label decoded to fresh symbolic text")
+                outl.append(SSeq.fresh(f"punycode_{k}", 2, "str", minlen=1, maxcp=0xFFFF))
+            else:
+                outl.append(SSeq("str", [_zx(e) for e in le], len(le)))
+        r = SSeq("str", [], 0)
+        for li, lab in enumerate(outl):
+            if li:
+                r = r + SSeq.const(".")
+            r = r + lab
+        return r
     if enc != "utf-8":
         raise Unsupported(f"decode from {encoding}")
 
